@@ -12,7 +12,7 @@ use crate::Value;
 use crate::env::str_as_bool;
 use crate::graph::{
     CaptureEnv, Constant, ConstantNode, ConstantNodeData, Graph, Node, NodeId, OperatorNode,
-    PlanOptions, RunError,
+    PlanOptions, RunError, unique_node_ids,
 };
 use crate::infer_shapes::{InferError, InferShapeOptions, Shape, infer_shapes};
 use crate::operator::Operator;
@@ -712,9 +712,12 @@ impl GraphOptimizer {
     fn propagate_constants(&self, graph: &mut GraphMutator) -> Result<(), OptimizeError> {
         // Do a partial run with no inputs. This evaluates all nodes that
         // transitively depend only on constants.
+        //
+        // A subgraph may list the same value more than once among its outputs.
+        let output_ids = unique_node_ids(graph.output_ids());
         let leaves = graph
             .graph()
-            .partial_run(vec![], graph.output_ids(), None)
+            .partial_run(vec![], &output_ids, None)
             .map_err(OptimizeError::RunError)?;
 
         // Take the resulting (value_node_id, value) list, create new constant
